@@ -8,7 +8,7 @@
    F is the recursion depth of the matcher, one value for a whole evaluation; every statement holds for every F. *)
 From Coq Require Import List NArith Bool.
 Import ListNotations.
-Require Import Pk.RegexProg Pk.RegexProgProofs Pk.Regex Pk.RegexProofs Pk.DataFilter Pk.DataFilterProofs.
+Require Import Pk.RegexProg Pk.RegexProgProofs Pk.Regex Pk.RegexProofs Pk.DataFilter Pk.DataFilterProofs Pk.DataFilterSeqProofs.
 
 (* ---- A. the shortcuts of progressVariant.find do not change the scan.
    facts_sound r: every accepted word starts with the prefix, ends with the suffix and has a length within [min,max].
@@ -77,6 +77,41 @@ Theorem c04_sources_and_negation : forall F guard tbl cn cs st,
      end) ->
   conj_selected F guard tbl cn cs st = conj_spec F tbl cn cs st.
 Proof. exact conj_accounting. Qed.
+
+(* ---- B and C. sequence progress and sharing.
+   find_ok F guard r: the expression has at least the two capture slots of the whole match and its find agrees with the
+   plain scan (find_agrees) on every buffer and offset. tbl_ok: every element of the condition refers to such an expression.
+   If that holds for all conditions evaluated together (whatever expressions they share, in whatever order the loop visits
+   them), the re-check loop leaves condition ci with exactly seq_spec matched elements: each element was searched, in its own
+   direction, in the data that follows the previous match in conversation order, and the other conditions had no influence. *)
+Theorem c04_sequence_and_sharing : forall F guard tbl s cs,
+  (forall c, In c cs -> tbl_ok F guard tbl c) ->
+  forall ci c, nth_error cs ci = Some c ->
+  exists p, nth_error (source_eval F guard tbl cs s) ci = Some p /\
+            p_n p = seq_spec F tbl s (c_elems c) 0 0 /\ p_n p <= length (c_elems c).
+Proof. exact source_eval_spec. Qed.
+
+(* the chunk-boundary rule as coded (backward scan over the cumulative sizes) is the rule of the specification *)
+Theorem c04_chunk_boundary_rule : forall s d off, 0 < off -> off <= length (dir_data d s) ->
+  exists o, boundary s d off = Some o /\ boundary_spec s d off 0 0 = Some o.
+Proof. exact boundary_eq. Qed.
+
+(* ---- end to end: the filter selects exactly the streams of the plain-scan specification *)
+Theorem c04_filter_is_plain_scan : forall F guard tbl cn ors st,
+  (forall cs c, In cs ors -> In c cs -> tbl_ok F guard tbl c) ->
+  stream_selected F guard tbl cn ors st = stream_spec F tbl cn ors st.
+Proof. exact stream_selected_spec. Qed.
+
+(* where find_ok comes from: expressions with assertions (guard), expressions without (theorem A + C18 facts) *)
+Theorem c04_find_ok_guarded : forall F r, context_sensitive r = true -> 2 <= r_ncap r -> find_ok F true r.
+Proof. exact find_ok_guarded. Qed.
+
+Theorem c04_find_ok_shortcuts_partial : forall F guard r,
+  assertion_free (r_prog r) = true -> facts_sound r -> 2 <= r_ncap r ->
+  (N.eqb (f_min (r_facts r)) (f_max (r_facts r)) && match f_prefix (r_facts r) with [] => true | _ => false end
+     && match f_suffix (r_facts r) with [] => false | _ => true end = false) ->
+  find_ok F guard r.
+Proof. exact find_ok_shortcuts_partial. Qed.
 
 (* ---- non-vacuity *)
 Definition rx_ab_c : rx := mkRx          (* ab+c : prefix "ab", no suffix (a loop in front empties it), min 3 *)
